@@ -3,7 +3,7 @@ from . import concref as CR
 from .p_c05 import ConcBase
 
 PROGS = ["S0:5", "T0:7", "G0", "X0", "T0:7 G0", "S0:5 X0", "G0 T0:9 G0", "f0 S1:3 G1", "f0 T1:4", "T0:1 T0:2", "X0 G0", "f0 G1 X1",
-         "l0 S1:3 G1", "l0 T1:4", "c0:1 T1:6 G1"]
+         "l0 S1:3 G1", "l0 T1:4", "c0:1 T1:6 G1", "S0:5 S0:6", "S0:5 G0 S0:6", "G0 G0", "T0:8 G0 G0"]
 
 
 class C18(ConcBase):
